@@ -382,6 +382,211 @@ def check_whole_name_match(chk, prog, u):
     return n
 
 
+class _VFUnknown(Exception):
+    pass
+
+
+def check_value_finder(chk, prog, u):
+    """N5: where the value of a long option comes from.  The function that looks for the '=' in the word (the one calling
+    strchr(word, '=')) is evaluated abstractly for the 2 x 2 x 2 situations {'=' present, a byte follows the '=', a next word
+    exists}: it must return the position right behind the '=' whenever there is one - also when nothing follows it
+    (`--name=` gives the empty value, it does not swallow the next word) - and the next word (or NULL) otherwise, and report
+    through its flag parameter exactly whether the '=' was there.  Finite abstract evaluation (pointer values: NULL, the '='
+    position + k, the next word); a construct outside the evaluator makes the rule undecided, never an alarm."""
+    n = 0
+    for f in u.functions.values():
+        if f.body is None or len(f.params) < 2:
+            continue
+        sc = [c for c in X.calls_in(f.body) if X.callee_name(c) in ("strchr", "__builtin_strchr", "index") and len(c["ch"]) >= 3 and X.const_val(c["ch"][2]) == 61]
+        if not sc or not (f.j.get("ret", "") + f.j.get("retc", "")).strip().endswith("*"):
+            continue
+        word_d = (X.strip(sc[0]["ch"][1]) or {}).get("d")
+        pp = [p for p in f.params if p.get("tp")]
+        if word_d != pp[0]["d"] or len(pp) < 2:
+            continue
+        next_d = pp[1]["d"]
+        flag_d = pp[2]["d"] if len(pp) > 2 else None
+        n += 1
+        bad = None
+        undec = None
+        for E in (0, 1):
+            for V in (0, 1):
+                for N in (0, 1):
+                    if not E and V:
+                        continue
+                    env = {next_d: ("NEXT",) if N else ("NULL",), word_d: ("WORD",)}
+                    out = {"flag": None}
+
+                    def truth(v):
+                        if v[0] == "int":
+                            return v[1] != 0
+                        if v[0] == "NULL":
+                            return False
+                        if v[0] in ("EQ", "NEXT", "WORD"):
+                            return True
+                        raise _VFUnknown("truth of %r" % (v,))
+
+                    def ev(e):
+                        e0 = e
+                        e = X.strip(e)
+                        if e is None:
+                            raise _VFUnknown("expr")
+                        cv = X.const_val(e)
+                        if cv is not None and not e.get("tp"):
+                            return ("int", cv)
+                        if X.is_null_const(e0) or X.is_null_const(e):
+                            return ("NULL",)
+                        k = e.get("k")
+                        if k == "ref":
+                            if e["d"] in env:
+                                return env[e["d"]]
+                            raise _VFUnknown("value of %s" % e.get("n"))
+                        if k == "call" and e in sc or (k == "call" and X.callee_name(e) in ("strchr", "__builtin_strchr", "index") and X.const_val(e["ch"][2]) == 61):
+                            return ("EQ", 0) if E else ("NULL",)
+                        if k == "call" and (X.callee_name(e) or "").startswith("libast_"):
+                            return ("int", 0)
+                        if k == "assign":
+                            l = X.strip(e["ch"][0])
+                            if e.get("op") == "=":
+                                v = ev(e["ch"][1])
+                            elif e.get("op") in ("+=", "-=") and l.get("k") == "ref":
+                                cur, d_ = ev(l), ev(e["ch"][1])
+                                if cur[0] == "EQ" and d_[0] == "int":
+                                    v = ("EQ", cur[1] + (d_[1] if e["op"] == "+=" else -d_[1]))
+                                else:
+                                    raise _VFUnknown("compound assignment")
+                            else:
+                                raise _VFUnknown("assignment")
+                            if l.get("k") == "ref":
+                                env[l["d"]] = v
+                            elif l.get("k") == "un" and l.get("op") == "*" and (X.strip(l["ch"][0]) or {}).get("d") == flag_d:
+                                out["flag"] = v
+                            else:
+                                raise _VFUnknown("store")
+                            return v
+                        if k == "un" and e.get("op") in ("++", "--"):
+                            l = X.strip(e["ch"][0])
+                            cur = ev(l)
+                            if cur[0] != "EQ" or l.get("k") != "ref":
+                                raise _VFUnknown("increment")
+                            new = ("EQ", cur[1] + (1 if e["op"] == "++" else -1))
+                            env[l["d"]] = new
+                            return cur if e.get("post") else new
+                        if k == "un" and e.get("op") == "!":
+                            return ("int", 0 if truth(ev(e["ch"][0])) else 1)
+                        if k == "un" and e.get("op") == "*":
+                            if (X.strip(e["ch"][0]) or {}).get("d") == flag_d and flag_d is not None:
+                                if out["flag"] is None:
+                                    raise _VFUnknown("flag read before it is written")
+                                return out["flag"]
+                            p_ = ev(e["ch"][0])
+                            if p_[0] == "EQ" and p_[1] == 0:
+                                return ("int", 61)
+                            if p_[0] == "EQ" and p_[1] == 1:
+                                return ("int", 120 if V else 0)
+                            raise _VFUnknown("read through %r" % (p_,))
+                        if k == "index":
+                            p_, i_ = ev(e["ch"][0]), ev(e["ch"][1])
+                            if p_[0] == "EQ" and i_[0] == "int":
+                                off = p_[1] + i_[1]
+                                if off == 0:
+                                    return ("int", 61)
+                                if off == 1:
+                                    return ("int", 120 if V else 0)
+                            raise _VFUnknown("indexed read")
+                        if k == "bin" and e.get("op") in ("+", "-") and e.get("tp"):
+                            p_, i_ = ev(e["ch"][0]), ev(e["ch"][1])
+                            if p_[0] == "EQ" and i_[0] == "int":
+                                return ("EQ", p_[1] + (i_[1] if e["op"] == "+" else -i_[1]))
+                            raise _VFUnknown("pointer arithmetic")
+                        if k == "bin" and e.get("op") in ("&&", "||"):
+                            a = truth(ev(e["ch"][0]))
+                            if e["op"] == "&&":
+                                return ("int", 1 if (a and truth(ev(e["ch"][1]))) else 0)
+                            return ("int", 1 if (a or truth(ev(e["ch"][1]))) else 0)
+                        if k == "bin" and e.get("op") in ("==", "!="):
+                            a, b = ev(e["ch"][0]), ev(e["ch"][1])
+                            if a[0] == "int" and b[0] == "int":
+                                r = a[1] == b[1]
+                            elif "NULL" in (a[0], b[0]) or ("int", 0) in (a, b):
+                                other = b if (a[0] == "NULL" or a == ("int", 0)) else a
+                                r = not truth(other)
+                            else:
+                                raise _VFUnknown("comparison")
+                            return ("int", int(r == (e["op"] == "==")))
+                        if k == "cond":
+                            return ev(e["ch"][1]) if truth(ev(e["ch"][0])) else ev(e["ch"][2])
+                        raise _VFUnknown(k or "?")
+
+                    class _Ret(Exception):
+                        def __init__(self, v):
+                            self.v = v
+
+                    def run(st):
+                        if st is None:
+                            return
+                        k = st.get("k")
+                        if k in ("block", "compound"):
+                            for c_ in st.get("ch", []):
+                                run(c_)
+                        elif k == "decl":
+                            for dcl in st.get("decls", ()):
+                                if dcl.get("init") is not None:
+                                    env[dcl["d"]] = ev(dcl["init"])
+                                else:
+                                    env[dcl["d"]] = ("UNINIT",)
+                        elif k == "if":
+                            if not any(y.get("k") in ("assign", "return") or (y.get("k") == "un" and y.get("op") in ("++", "--")) for y in walk(st)):
+                                return          # a debugging statement: cannot touch the outcome
+                            run(st["then"] if truth(ev(st["cond"])) else st.get("else"))
+                        elif k == "return":
+                            raise _Ret(ev(st["val"]) if st.get("val") is not None else None)
+                        elif k == "do" and X.const_val(st.get("cond")) == 0:
+                            run(st.get("body"))
+                        elif k == "null":
+                            return
+                        elif k in ("for", "while", "do", "switch", "goto", "label"):
+                            # debugging output wrapped in loops / conditionals on the level: skip statements that cannot touch the outcome
+                            if any(y.get("k") == "assign" or (y.get("k") == "un" and y.get("op") in ("++", "--")) for y in walk(st)):
+                                raise _VFUnknown(k)
+                        else:
+                            # expression statement (possibly a debugging macro's if/do block)
+                            if st.get("k") in ("assign", "un", "call", "paren", "cast", "icast", "bin", "cond"):
+                                if st.get("k") == "call" or not any(y.get("k") == "assign" or (y.get("k") == "un" and y.get("op") in ("++", "--")) for y in walk(st)):
+                                    return
+                                ev(st)
+                            else:
+                                raise _VFUnknown(k or "stmt")
+                    try:
+                        try:
+                            run(f.body)
+                            ret = None
+                        except _Ret as r_:
+                            ret = r_.v
+                    except _VFUnknown as ex:
+                        undec = str(ex)
+                        continue
+                    want_ret = ("EQ", 1) if E else (("NEXT",) if N else ("NULL",))
+                    want_flag = 1 if E else 0
+                    got_flag = out["flag"][1] if out["flag"] is not None and out["flag"][0] == "int" else None
+                    if ret != want_ret or (flag_d is not None and (got_flag is None or bool(got_flag) != bool(want_flag))):
+                        bad = (E, V, N, ret, got_flag, want_ret, want_flag)
+        if undec is not None and bad is None:
+            chk.note("N5: %s not decided (%s)" % (f.name, undec))
+            continue
+        desc = ""
+        if bad is not None:
+            E, V, N, ret, gf, wr, wf = bad
+            desc = "with %s, %s, %s it returns %s and reports hasequal=%s (expected %s, %s)" % (
+                "an '=' in the word" if E else "no '=' in the word", "a byte behind it" if V else "nothing behind it", "a next word" if N else "no next word",
+                {"EQ": "the position %s behind the '='" % (ret[1] if ret and ret[0] == "EQ" else "?"), "NEXT": "the next word", "NULL": "NULL"}.get(ret[0] if ret else "NULL", str(ret)),
+                gf, {"EQ": "the position right behind the '='", "NEXT": "the next word", "NULL": "NULL"}[wr[0]], wf)
+        chk.ob("N5", f.name, "value-of-long-option", bad is None, loc=f.loc(f.body),
+               detail="%s: %s: `--name=` takes the next word for its value (and removes it) instead of the empty value" % (f.name, desc),
+               proof="8 situations evaluated: behind the '=' iff there is one, else the next word / NULL; flag == presence of '='")
+    return n
+
+
 def check_long_lookup_words(chk, prog, u):
     """N3: the word handed to the long-option lookup has had both hyphens consumed.  May-dataflow over the letter cursor: the
     fact "the byte at p is a hyphen" is established by a successful test `*p == '-'` and killed when p moves; a call
@@ -464,6 +669,7 @@ def run(tier="quick"):
                      ("M3", "every way round the main loop advances"), ("M6", "per-word state (long/equal flags, value pointer) does not survive an iteration"), ("N1", "letter cursor never passes the terminator"), ("N2", "a word removed from argv is not read again before the index moves on"),
                      ("N3", "the long-option lookup is handed the word with both hyphens consumed"),
                      ("N4", "a long option is selected by its whole name, not by a prefix"),
+                     ("N5", "the value of --name=VALUE starts right behind the '=' (also when it is empty)"),
                      ("M5", "argv compaction stays inside argv and terminates it"), ("B1", "the argument-list handler writes only inside the list it allocated")):
         chk.rule(rid, txt)
     prog = facts.extract(only=["options.c"])
@@ -825,6 +1031,7 @@ def run(tier="quick"):
     chk.count("calls_after_word_removal", n_n2, floor=1)
     chk.count("long_option_lookups", check_long_lookup_words(chk, prog, u), floor=2)
     chk.count("long_name_comparisons", check_whole_name_match(chk, prog, u), floor=1)
+    chk.count("value_finders", check_value_finder(chk, prog, u))
     # B1 argument-list handler: every store into the word list it allocates is within the allocation (CAP, strict: a bound that
     # cannot be established is reported), and what it hands to the string functions is a string
     from ..cap import Cap
